@@ -116,6 +116,81 @@ def add(plan, ctx, srch):
                  canaries=[lambda ex, env: z3.And(T(env["g_lg"]) == 2, T(env["g_sm"]) == 16)])
     plan.target(c)
 
+    # ---- fractional durations (floats as reals, A-REAL): the same statement over the reals, with the millisecond component
+    from pyvc import realfloat as RF
+    RF.install(ctx)
+    rf_int_of_float = ctx.int_of_float
+
+    def int_of_float2(ex, t):
+        if z3.is_app(t) and t.decl().name() == "fdiv":
+            return int_of_float(ex, t)
+        return rf_int_of_float(ex, t)
+    ctx.int_of_float = int_of_float2
+
+    def entry_frac(ex):
+        env = entry(ex)
+        d = ex.fresh("float", "seconds")
+        ex.assume(z3.And(RF.RV(d.t) >= 0, RF.RV(d.t) < 2 ** 53))
+        env["self"].fields["_double"] = d
+        env["g_d"] = d
+        return env
+
+    def post_frac(ex, env):
+        comps = ex.entry_env.get("g_comps")
+        if comps is None:
+            return z3.BoolVal(False)
+        d, lg, sm = RF.RV(env["g_d"].t), T(env["g_lg"]), T(env["g_sm"])
+        shown = [u for u, _ in comps]
+        if 0 in shown:
+            return z3.BoolVal(False)
+        want_shown = [z3.And(lg <= u, sm >= u) if u != 32 else sm >= 32 for u in (1, 2, 4, 8, 16, 32)]
+        conj = [w == z3.BoolVal(u in shown) for u, w in zip((1, 2, 4, 8, 16, 32), want_shown)]
+        conj.append(z3.BoolVal(shown == sorted(shown) and len(set(shown)) == len(shown)))
+        total, prev, ms = z3.IntVal(0), None, None
+        for u, n in comps:
+            nt = T(n)
+            conj.append(nt >= 0)
+            if u == 32:
+                ms = nt
+                continue
+            if prev is not None:
+                conj.append(nt * SIZE[u] < SIZE[prev])
+            total = total + nt * SIZE[u]
+            prev = u
+        real = [u for u in shown if u != 32]
+        if ms is not None:
+            # the components, weighted, are the duration to the nearest millisecond
+            diff = 1000 * d - 1000 * z3.ToReal(total) - z3.ToReal(ms)
+            conj += [2 * diff <= 1, 2 * diff >= -1]
+        elif real:
+            conj += [z3.ToReal(total) <= d, d < z3.ToReal(total + SIZE[real[-1]])]
+        return z3.And(*conj)
+    post_frac.__name__ = ("any duration >= 0 (floats as reals): the shown components are non-negative, each later one below the ratio to the unit before it, "
+                          "and their weighted sum is the duration rounded down to the smallest shown unit - to the nearest millisecond when milliseconds are shown")
+    c2 = Contract("cell:Cell._duration_format", label="fractional/spelled-out", entry=entry_frac, ensures=[post_frac], safety="fork", opaque=opaque,
+                  inline={"cell:unit_in_range", "cell:pad_digits", "cell:Cell._duration_format.unit_in_range", "cell:Cell._duration_format.pad_digits"},
+                  local_views={"dstr": lambda ex, env: CompList()}, search=srch("search_durations"))
+    plan.target(c2)
+
+    # ---- _auto_units for durations that are not a whole number of seconds (floats as reals)
+    def au_frac_entry(ex):
+        v = ex.fresh("float", "seconds")
+        ex.assume(z3.And(RF.RV(v.t) > 0, RF.RV(v.t) < 2 ** 53, z3.ToReal(RF.FLOOR(RF.RV(v.t))) != RF.RV(v.t), RF.floor_def(RF.RV(v.t))))
+        nf = PObj("Format", {"duration_unit_largest": ex.fresh("int", "stored_largest"), "duration_unit_smallest": ex.fresh("int", "stored_smallest")})
+        return {"cell_value": v, "number_format": nf}
+
+    def au_frac_post(ex, env):
+        v = RF.RV(env["cell_value"].t)
+        sm, lg = T(env["result"][0]), T(env["result"][1])
+        want_lg = z3.If(v >= 604800, 1, z3.If(v >= 86400, 2, z3.If(v >= 3600, 4, z3.If(v >= 60, 8, z3.If(v >= 1, 16, 32)))))
+        return z3.And(lg == want_lg, sm == 32)
+    au_frac_post.__name__ = "a duration with a fraction of a second: smallest unit milliseconds, largest the largest unit the value reaches (milliseconds below 1 s)"
+    plan.target(Contract("cell:_auto_units", label="fractional", entry=au_frac_entry, ensures=[au_frac_post], safety="fork", search=srch("search_durations"),
+                         opaque={"math.floor(cell_value)": lambda ex, env: SFloat_of_floor(ex, env["cell_value"])}))
+
+    def SFloat_of_floor(ex, v):
+        return wrap(RF.floor_int(ex, RF.RV(v.t)))
+
     def fdiv_sampled():
         """FDIV-TRUNC is assumed, not proved (z3's floating-point theory gave no verdict in 200 s per divisor): this samples it where it could
         fail - dividends one below, at and one above a multiple of the divisor, up to 2**53"""
